@@ -1,8 +1,9 @@
 package main
 
 import (
-	"go/token"
 	"fmt"
+	"go/token"
+	"os"
 	"regexp"
 	"sort"
 	"strings"
@@ -226,6 +227,7 @@ func propC16(c *Check) {
 	// R4 election
 	eb := p.MustFn("x/relayer/keeper.Keeper.EndBlocker")
 	c.touch(eb)
+	c.HookRuns("R4", "x/relayer/module.AppModule.EndBlock", "x/relayer/keeper.Keeper.EndBlocker")
 	{
 		stores := p.renderedStores(eb)
 		var epochSt, lastSt []ssa.Instruction
@@ -294,6 +296,113 @@ func propC16(c *Check) {
 			c.RequireFact(eb, "R4", "election-only-after-period-or-not-accepted", due+"|"+lit("!Relayer.Get()#0.ProposerAccepted"), tgt, "starting an election")
 			c.RequireFact(eb, "R4", "election-only-after-period-or-timeout-configured", due+"|"+lit(NE("0", "Params.Get()#0.AcceptProposerTimeout")), tgt, "starting an election")
 			c.RequireFact(eb, "R4", "election-only-after-period-or-timeout-elapsed", due+"|"+lit("(Params.Get()#0.AcceptProposerTimeout <= "+dur+")"), tgt, "starting an election")
+		}
+		// a proposer that was just put in place has not accepted yet: wherever the stored record may carry a
+		// different proposer than the loaded one, it carries ProposerAccepted = false (otherwise a new proposer
+		// that never acts is not replaced when the accept timeout passes)
+		{
+			r := p.R(eb)
+			n := 0
+			for _, s := range p.StoreSites(eb) {
+				if s.Field.Name() != "Relayer" || s.Method != "Set" || len(s.Args) == 0 {
+					continue
+				}
+				u, ok := s.Args[len(s.Args)-1].(*ssa.UnOp)
+				if !ok || u.Op != token.MUL {
+					continue
+				}
+				a, path := rootAlloc(u.X)
+				if a == nil || path != "" {
+					continue
+				}
+				n++
+				cons := fmt.Sprintf("new-proposer-not-yet-accepted#%d @ %s", n, FuncKey(eb))
+				prop := r.fieldAt(a, ".Proposer", s.Call, "unchanged", 0)
+				acc := r.fieldAt(a, ".ProposerAccepted", s.Call, "unchanged", 0)
+				if os.Getenv("GOATVERIF_DEBUG_C16") != "" {
+					fmt.Fprintln(os.Stderr, "C16 accepted:", p.InstrPos(s.Call), "proposer=", prop, "accepted=", acc)
+				}
+				reachedBy := ""
+				if prop != "unchanged" && acc != "false" {
+					// which proposer assignment can actually be observed here (the rendering joins assignments
+					// of branches that exclude each other)
+					for _, b := range eb.Blocks {
+						for _, in := range b.Instrs {
+							st, ok := in.(*ssa.Store)
+							if !ok {
+								continue
+							}
+							if ra, sp := rootAlloc(st.Addr); ra != a || sp != ".Proposer" {
+								continue
+							}
+							if t, _ := (&PathSearch{Fn: eb, From: st, IsTarget: func(x ssa.Instruction) bool { return x == ssa.Instruction(s.Call) }}).Find(); t != nil {
+								reachedBy = p.InstrPos(st)
+							}
+						}
+					}
+				}
+				switch {
+				case prop == "unchanged":
+					c.Held("R4", cons, p.InstrPos(s.Call), "the proposer is the loaded one; flag "+acc)
+				case acc != "false" && reachedBy == "":
+					c.Held("R4", cons, p.InstrPos(s.Call), "no proposer assignment reaches this store; flag "+acc)
+				case acc == "false":
+					c.Held("R4", cons, p.InstrPos(s.Call), "proposer "+prop+" stored with ProposerAccepted = false")
+				default:
+					c.Violated("R4", cons, p.InstrPos(s.Call), "the record is stored with proposer "+prop+" and ProposerAccepted = "+acc+" (want false: the new proposer has not accepted)")
+				}
+			}
+			c.Floor("R4", "relayer stores in the end blocker", n, 1)
+		}
+		// a retired record may be the proposer's: after every Voters.Remove no success exit is reached without the
+		// proposer having been looked up among / compared with the retired addresses (otherwise a removed proposer
+		// stays in office, and the next election swaps it into the voter list without a record)
+		{
+			r := p.R(eb)
+			isProp := func(v ssa.Value) bool { return r.E(v) == "Relayer.Get()#0.Proposer" }
+			var consults []ssa.Instruction
+			for _, b := range eb.Blocks {
+				for _, in := range b.Instrs {
+					switch x := in.(type) {
+					case *ssa.Lookup:
+						if isProp(x.Index) {
+							consults = append(consults, in)
+						}
+					case *ssa.BinOp:
+						if (x.Op == token.EQL || x.Op == token.NEQ) && (isProp(x.X) || isProp(x.Y)) {
+							consults = append(consults, in)
+						}
+					case *ssa.Call:
+						if cf := calleeFunc(x.Common()); cf != nil && cf.Pkg() != nil && cf.Pkg().Path() == "slices" && (cf.Name() == "Contains" || cf.Name() == "Index") && len(x.Call.Args) == 2 && isProp(x.Call.Args[1]) {
+							consults = append(consults, in)
+						}
+						// a helper this tree adds (not in the reference inventory) that is handed the relayer record: what
+						// it does with the proposer is judged in the expanded view, where its body stands here
+						if g := x.Common().StaticCallee(); g != nil && !inventory()[FuncKey(g)] && strings.HasPrefix(FuncKey(g), "x/relayer/") {
+							for _, a := range x.Call.Args {
+								if ra, _ := rootAlloc(a); ra != nil && r.E(ra) == "Relayer.Get()#0" {
+									consults = append(consults, in)
+								}
+							}
+						}
+					}
+				}
+			}
+			removes := p.FindCalls(eb, `^Voters\.Remove\(`)
+			for i, rm := range removes {
+				cons := fmt.Sprintf("retired-address-compared-with-proposer#%d @ %s", i+1, FuncKey(eb))
+				// (the comparison may come first: a plan / apply split decides before it retires the records)
+				if before, _ := (&PathSearch{Fn: eb, AvoidInstr: instrSet(consults), IsTarget: func(in ssa.Instruction) bool { return in == ssa.Instruction(rm) }}).Find(); before == nil {
+					c.Held("R4", cons, p.InstrPos(rm), "the proposer has been looked up among the retired addresses on every path to this removal")
+					continue
+				}
+				if t, path := (&PathSearch{Fn: eb, From: rm, AvoidInstr: instrSet(consults), IsTarget: successTargets(eb)}).Find(); t != nil {
+					c.Violated("R4", cons, p.InstrPos(rm), "a voter record is retired and a success exit reached without checking whether it is the proposer's", p.describePath(path)...)
+				} else {
+					c.Held("R4", cons, p.InstrPos(rm), "the proposer is looked up among the retired addresses on every path to success")
+				}
+			}
+			c.Floor("R4", "voter records retired by the end blocker", len(removes), 1)
 		}
 		// proposer replacement
 		del := `slices\.DeleteFunc\(mix\{.*\}, closure\(x/relayer/keeper\.Keeper\.EndBlocker\$1\)\)`
